@@ -1,6 +1,7 @@
 import EAO.Spec.Textbook
 import EAO.Lemmas.Textbook
 import EAO.Properties.C09
+import EAO.Properties.C08
 /-!
 # C02 — reference equivalence: the assembled LP means what the textbook formulation says
 
@@ -279,21 +280,206 @@ theorem contract_refines_one {p : ContractP} {g : Grid} {prices : Prices} {fullT
     · intro n t; rw [hfl n t]; exact contract_flow_one p g hg d lo hi n t y
     · exact contract_cash_one p g hg d lo hi y hl hone (hvol y hb)
 
-/-! ## not proved here (TARGET statements)
+/-! ## contracts with a spread on both sides, take periods, several commodities -/
 
-* TARGET `contract_refines_two` — two-variable form (`oneVariable d.ec d.minC d.maxC = false`), hypotheses
-  `∀ k < g.T, 0 ≤ d.ec.getD k 0` and `∀ k < g.T, 0 ≤ dfOf g k`:
-  `Refines (scTwo p g d) (contractSem (contractS1 lo hi d.price d.ec d.node) g)` — textbook → model by splitting
-  `q` into `min(q,0)`, `max(q,0)` (same cash), model → textbook by netting `q = x_in + x_out`, where the cash can
-  only rise (`|x_in + x_out| ≤ x_out − x_in`).  Not `RefinesExactly`: the model also allows wasteful
-  simultaneous buying and selling.  That `ec ≥ 0` is needed is shown below (`ec_nonneg_needed`).
-* TARGET `take_rows_spec` — from `EAO.C08.take_prorated`: a row of `defineRestr` holds iff
-  `Period.volume … (≤|≥) Period.limit …` of `takesOK` (then `contract_refines` for `buildContract`,
-  `transport_refines` for `buildExtTransport` with the volume leaving the first node).
-* TARGET `multi_refines` — from `EAO.C08.multi_mapping`: `ContractS.nodes := p.nodes.zip factors`.
-* the empty window (`g.T = 0`): every builder returns the problem without variables (`EAO.C08.empty_window_inert`),
-  whose only attainable pair is (no flow, no cash), as is the textbook's.
-All of these are covered on the real code by the oracle `harness/comp/textbook.py`. -/
+/-- what a successful set-up of a (simple) contract looked at: `d.price` the price sampled at the window,
+    `d.ec` the spread, `d.minC`/`d.maxC` the volume limits, `lo`/`hi` the RATES `make_vector` returns for
+    `min_cap`/`max_cap` (scalar, array, price key or interval data), `d.node` the contract's (first) node -/
+structure ContractData (p : ContractP) (g : Grid) (prices : Prices) (fullT : Nat) (d : SCData) (lo hi : List Rat) :
+    Prop where
+  price   : priceVector p.price g prices fullT = .ok d.price
+  vectors : ∃ minO maxO ecO, contractVectors p g prices = .ok (minO, maxO, ecO) ∧ allSome ecO = .ok d.ec ∧
+              allSome minO = .ok d.minC ∧ allSome maxO = .ok d.maxC
+  lo_rate : baseVector p.minCap g prices none = .ok (lo.map some)
+  hi_rate : baseVector p.maxCap g prices none = .ok (hi.map some)
+  node    : p.nodes.head? = some d.node
+
+/-- inversion of `buildSimpleContract`, with everything the refinement theorems need -/
+theorem simple_data {p : ContractP} {g : Grid} {prices : Prices} {fullT : Nat} {a : AssetProblem}
+    (hg : g.Ok) (h : buildSimpleContract p g prices fullT = .ok a) :
+    ∃ (d : SCData) (lo hi : List Rat), ContractData p g prices fullT d lo hi ∧
+      (d.price.length = g.T ∧ d.ec.length = g.T ∧ d.minC.length = g.T ∧ d.maxC.length = g.T) ∧
+      lo.length = g.T ∧ hi.length = g.T ∧
+      d.minC = List.zipWith (· * ·) lo g.dt ∧ d.maxC = List.zipWith (· * ·) hi g.dt ∧
+      a = (if oneVariable d.ec d.minC d.maxC then scOne p g d else scTwo p g d) := by
+  obtain ⟨d, minO, maxO, ecO, hp, hv, he, hmi, hma, ⟨rest, hn⟩, rfl⟩ := buildSimpleContract_ok h
+  obtain ⟨h1, h2, _, _⟩ := contractVectors_ok hv
+  obtain ⟨lo, hlo, hlol, hlo'⟩ := capVector_eq hg h2 hmi
+  obtain ⟨hi, hhi, hhil, hhi'⟩ := capVector_eq hg h1 hma
+  exact ⟨d, lo, hi, ⟨hp, ⟨minO, maxO, ecO, hv, he, hmi, hma⟩, hlo, hhi, by simp [hn]⟩,
+    scData_lengths hg hp hv he hmi hma, hlol, hhil, hlo', hhi', rfl⟩
+
+/-- **contract_refines_two.**  `buildSimpleContract` in its two-variable form (a spread, capacities of both
+    signs), for a non-negative spread and non-negative discount factors: the problem and the textbook contract
+    `Refine` each other in the sense of `portfolio_refines` — textbook → model by splitting `q` into its negative
+    and positive part (same flow, same cash), model → textbook by netting `q = x_in + x_out` (same flow, no less
+    cash: `|x_in + x_out| ≤ x_out − x_in`).  Not an equality of the sets of pairs: the model also allows wasteful
+    simultaneous buying and selling.  `Ex.ec_nonneg_needed` shows that `hec` cannot be dropped. -/
+theorem contract_refines_two {p : ContractP} {g : Grid} {prices : Prices} {fullT : Nat} {P : AssetProblem}
+    (hg : g.Ok) (hinj : IdxInj g) (h : buildSimpleContract p g prices fullT = .ok P) :
+    ∃ (d : SCData) (lo hi : List Rat), ContractData p g prices fullT d lo hi ∧
+      (oneVariable d.ec d.minC d.maxC = false →
+        (∀ k, k < g.T → 0 ≤ d.ec.getD k 0) → (∀ k, k < g.T → 0 ≤ dfOf g k) →
+        Refines P (contractSem (contractS1 lo hi d.price d.ec d.node) g)) := by
+  obtain ⟨d, lo, hi, hd, hl, _, _, hlo', hhi', rfl⟩ := simple_data hg h
+  refine ⟨d, lo, hi, hd, ?_⟩
+  intro htwo hec hdf
+  have := contract_gen_two p g hg hinj d lo hi hl hlo' hhi' hec hdf 1 [(d.node, 1)] [] []
+  rw [contractP_simple _ d.node (sc_nodes p g d).2, contractSG_simple] at this
+  simpa [htwo] using this
+
+/-- **take_rows_spec.**  The take rows of `buildContract` hold at `x` iff the textbook take constraints
+    `Σ_{t ∈ period ∩ window} q_t (≤ | ≥) V·covered time/((e−s)/unit)` hold for the physical volume: `q = x` in the
+    one-variable form, `q = x_in + x_out` in the two-variable form (a row sums the mapping factors at the
+    covered steps).  Periods covering no step of the window restrict nothing (there is no row). -/
+theorem take_rows_spec {p : ContractP} {g : Grid} {prices : Prices} {fullT u : Nat} {P : AssetProblem}
+    (hg : g.Ok) (hinj : IdxInj g) (h : buildContract p g prices fullT u = .ok P) (y : Vec) :
+    (∀ r ∈ P.rows, r.Sat y) ↔
+      takesOK g u (p.maxTake.map toPeriod) (p.minTake.map toPeriod)
+        (fun k => if P.n = g.T then y k else y k + y (g.T + k)) := by
+  obtain ⟨a, ha, rfl⟩ := buildContract_ok h
+  obtain ⟨d, lo, hi, _, hl, _, _, _, _, rfl⟩ := simple_data hg ha
+  by_cases hone : oneVariable d.ec d.minC d.maxC = true
+  · simp only [hone, if_true]
+    have hn : (scOne p g d).c.length = g.T := by
+      simp [scOne, oneVarPrice_length hl.1 hl.2.1, hg.2.2]
+    obtain ⟨hne, hq⟩ := takes_one p g hg hinj d y
+    have := contract_rows_iff (scOne p g d) rfl g u [(d.node, 1)] p.maxTake p.minTake y y hne hq
+    rw [contractP_plain _ d.node (sc_nodes p g d).1] at this
+    simpa [AssetProblem.n, hn] using this
+  · have hone' : oneVariable d.ec d.minC d.maxC = false := by simpa using hone
+    simp only [hone', Bool.false_eq_true, if_false]
+    have hn : (scTwo p g d).c.length = 2 * g.T := by
+      simp [scTwo, hl.1, hl.2.1, hg.2.2]; omega
+    obtain ⟨hne, hq⟩ := takes_two p g hg hinj d y
+    by_cases hT : g.T = 0
+    · -- no step at all: no row, and no period covers a step
+      have h0 : ∀ q, takesOK g u (p.maxTake.map toPeriod) (p.minTake.map toPeriod) q :=
+        fun q => takesOK_empty g hT u _ _ q
+      have := contract_rows_iff (scTwo p g d) rfl g u [(d.node, 1)] p.maxTake p.minTake y
+        (fun k => y k + y (g.T + k)) hne hq
+      rw [contractP_plain _ d.node (sc_nodes p g d).2] at this
+      exact ⟨fun _ => h0 _, fun _ => this.mpr (h0 _)⟩
+    · have := contract_rows_iff (scTwo p g d) rfl g u [(d.node, 1)] p.maxTake p.minTake y
+        (fun k => y k + y (g.T + k)) hne hq
+      rw [contractP_plain _ d.node (sc_nodes p g d).2] at this
+      have hne' : ¬ (2 * g.T = g.T) := by omega
+      simpa [AssetProblem.n, hn, hne'] using this
+
+/-- **contract_take_refines.**  `buildContract` (capacities, spread, minimum/maximum takes) against the textbook
+    contract with the same take periods: equal sets of attainable pairs in the one-variable form, mutual
+    domination (`Refines`) in the two-variable form under `ec ≥ 0`, `df ≥ 0`. -/
+theorem contract_take_refines {p : ContractP} {g : Grid} {prices : Prices} {fullT u : Nat} {P : AssetProblem}
+    (hg : g.Ok) (hinj : IdxInj g) (h : buildContract p g prices fullT u = .ok P) :
+    ∃ (d : SCData) (lo hi : List Rat), ContractData p g prices fullT d lo hi ∧
+      (oneVariable d.ec d.minC d.maxC = true →
+        RefinesExactly P (contractSem (contractSG lo hi d.price d.ec [(d.node, 1)] p.maxTake p.minTake u) g)) ∧
+      (oneVariable d.ec d.minC d.maxC = false →
+        (∀ k, k < g.T → 0 ≤ d.ec.getD k 0) → (∀ k, k < g.T → 0 ≤ dfOf g k) →
+        Refines P (contractSem (contractSG lo hi d.price d.ec [(d.node, 1)] p.maxTake p.minTake u) g)) := by
+  obtain ⟨a, ha, rfl⟩ := buildContract_ok h
+  obtain ⟨d, lo, hi, hd, hl, hlol, hhil, hlo', hhi', rfl⟩ := simple_data hg ha
+  refine ⟨d, lo, hi, hd, ?_, ?_⟩
+  · intro hone
+    have := contract_gen_one p g hg hinj d lo hi hl hlol hhil hlo' hhi' hone u [(d.node, 1)] p.maxTake p.minTake
+    rw [contractP_plain _ d.node (sc_nodes p g d).1] at this
+    simpa [hone] using this
+  · intro htwo hec hdf
+    have := contract_gen_two p g hg hinj d lo hi hl hlo' hhi' hec hdf u [(d.node, 1)] p.maxTake p.minTake
+    rw [contractP_plain _ d.node (sc_nodes p g d).2] at this
+    simpa [htwo] using this
+
+/-- **multi_refines.**  `buildMulti` (a contract whose single dispatch variable is booked at every node `k` with
+    `factor_k`): the textbook multi-commodity contract has the flows `factor_k·q_t` at node `k` and the feasible
+    set (capacities, takes on `q`) and cash of the underlying contract. -/
+theorem multi_refines {p : ContractP} {factors : List Rat} {g : Grid} {prices : Prices} {fullT u : Nat}
+    {P : AssetProblem} (hg : g.Ok) (hinj : IdxInj g) (h : buildMulti p factors g prices fullT u = .ok P) :
+    factors.length = p.nodes.length ∧
+    ∃ (d : SCData) (lo hi : List Rat), ContractData p g prices fullT d lo hi ∧
+      (oneVariable d.ec d.minC d.maxC = true →
+        RefinesExactly P
+          (contractSem (contractSG lo hi d.price d.ec (p.nodes.zip factors) p.maxTake p.minTake u) g)) ∧
+      (oneVariable d.ec d.minC d.maxC = false →
+        (∀ k, k < g.T → 0 ≤ d.ec.getD k 0) → (∀ k, k < g.T → 0 ≤ dfOf g k) →
+        Refines P
+          (contractSem (contractSG lo hi d.price d.ec (p.nodes.zip factors) p.maxTake p.minTake u) g)) := by
+  obtain ⟨hf, b, hb, rfl⟩ := buildMulti_ok h
+  obtain ⟨a, ha, rfl⟩ := buildContract_ok hb
+  obtain ⟨d, lo, hi, hd, hl, hlol, hhil, hlo', hhi', rfl⟩ := simple_data hg ha
+  refine ⟨hf, d, lo, hi, hd, ?_, ?_⟩
+  · intro hone
+    have := contract_gen_one p g hg hinj d lo hi hl hlol hhil hlo' hhi' hone u (p.nodes.zip factors)
+      p.maxTake p.minTake
+    simpa [hone, contractP, multiMap] using this
+  · intro htwo hec hdf
+    have := contract_gen_two p g hg hinj d lo hi hl hlo' hhi' hec hdf u (p.nodes.zip factors)
+      p.maxTake p.minTake
+    simpa [htwo, contractP, multiMap] using this
+
+/-! ## extended transport -/
+
+/-- take rows of `buildExtTransport` ⇔ textbook take constraints on the volume `f` leaving the first node
+    (the rows sit at the first node, whose mapping rows carry the factor −1: a maximum take is an `L` row with
+    negated volume) -/
+theorem take_rows_spec_transport {p : TransportP} {g : Grid} {prices : Prices} {fullT u : Nat} {P : AssetProblem}
+    (hg : g.Ok) (hinj : IdxInj g) (hnd : p.nodes.Nodup) (h : buildExtTransport p g prices fullT u = .ok P)
+    (y : Vec) :
+    (∀ r ∈ P.rows, r.Sat y) ↔ takesOK g u (p.maxTake.map toPeriod) (p.minTake.map toPeriod) y := by
+  obtain ⟨a, ha, rfl⟩ := buildExtTransport_ok h
+  obtain ⟨n0, n1, cts, hn, _, _, _, rfl⟩ := buildTransport_ok ha
+  have h01 : n0 ≠ n1 := by rw [hn] at hnd; simpa using hnd
+  have := ext_rows_iff p g hg hinj n0 n1 cts h01 u p.maxTake p.minTake y
+  simpa [hn, trProblem] using this
+
+/-- **ext_transport_refines.**  `buildExtTransport` against the textbook transport with take periods on the
+    volume leaving the first node: the SAME attainable (flows, cash) pairs. -/
+theorem ext_transport_refines {p : TransportP} {g : Grid} {prices : Prices} {fullT u : Nat} {P : AssetProblem}
+    (hg : g.Ok) (hinj : IdxInj g) (hnd : p.nodes.Nodup) (h : buildExtTransport p g prices fullT u = .ok P) :
+    ∃ n0 n1 cts, p.nodes = [n0, n1] ∧ transportCosts p.costsKey g prices fullT = .ok cts ∧
+      RefinesExactly P
+        (transportSem (transportS p cts n0 n1 (p.maxTake.map toPeriod) (p.minTake.map toPeriod) u) g) := by
+  have hrows := fun y => take_rows_spec_transport hg hinj hnd h y
+  obtain ⟨a, ha, rfl⟩ := buildExtTransport_ok h
+  obtain ⟨cts', hc', hguard⟩ := buildTransport_guard ha
+  obtain ⟨n0, n1, cts, hn, _, _, hc, rfl⟩ := buildTransport_ok ha
+  have : cts' = cts := by rw [hc] at hc'; injection hc' with e; exact e.symm
+  subst this
+  have hcl : cts'.length = g.T := by rw [transportCosts_length hc, hg.1]
+  refine ⟨n0, n1, cts', hn, hc, ?_⟩
+  intro fl c
+  constructor
+  · rintro ⟨f, ⟨hb, htk⟩, hfl, rfl⟩
+    refine ⟨f, ⟨(transport_bounds_iff p g hg f).mpr hb, (hrows f).mpr htk⟩, ?_, ?_⟩
+    · intro n t; rw [hfl n t]; exact (transport_flow p g hg n0 n1 n cts' t f _ _ u).symm
+    · exact (transport_cash p g hg n0 n1 cts' hcl f _ _ u hguard hb).symm
+  · rintro ⟨y, ⟨hbd, hr⟩, hfl, rfl⟩
+    have hb := (transport_bounds_iff p g hg y).mp hbd
+    refine ⟨y, ⟨hb, (hrows y).mp hr⟩, ?_, ?_⟩
+    · intro n t; rw [hfl n t]; exact transport_flow p g hg n0 n1 n cts' t y _ _ u
+    · exact transport_cash p g hg n0 n1 cts' hcl y _ _ u hguard hb
+
+/-! ## the empty window -/
+
+/-- **empty window, contracts and transports.**  On a window without a step (`g.T = 0`: the asset's window lies
+    outside the horizon) every one of the five builders returns the problem without variables
+    (`EAO.C08.empty_window_inert`); it attains exactly (no flow, no cash) — as does every textbook contract and
+    every textbook transport on that window. -/
+theorem empty_window_refines {g : Grid} {name : String} {nodes : List String} {P : AssetProblem}
+    (hg : g.Ok) (hT : g.T = 0) (h : C08.BuiltBy g name nodes P) :
+    (∀ c : ContractS, RefinesExactly P (contractSem c g)) ∧ (∀ r : TransportS, RefinesExactly P (transportSem r g)) := by
+  obtain ⟨h1, h2, _, h4, h5⟩ := C08.empty_window_inert hg hT h
+  exact ⟨fun c fl v => by rw [contractSem_empty c g hT, empty_attain P ⟨h1, h2, h4, h5⟩],
+         fun r fl v => by rw [transportSem_empty r g hT, empty_attain P ⟨h1, h2, h4, h5⟩]⟩
+
+/-- **empty window, storage** (any options) -/
+theorem empty_window_refines_storage (p : StorageP) (g : Grid) (T : Nat) (prices : Prices) (a : AssetProblem)
+    (hb : buildStorage p g T prices = .ok a) (hlen : g.dt.length = g.T) (hT : g.T = 0) :
+    ∀ s : StorageS, RefinesExactly a (storageSem s g) := by
+  unfold buildStorage at hb
+  rw [if_pos (by omega)] at hb
+  cases hb
+  intro s fl v
+  rw [storageSem_empty s g hT, empty_attain _ ⟨rfl, rfl, rfl, rfl⟩]
 
 end EAO.C02
 
